@@ -113,6 +113,18 @@ def add_unrelated_gc(js, rng):
         if ve["update"].get("connected_charging_station"):
             ve["update"]["connected_charging_station"] = cmap[ve["update"]["connected_charging_station"]]
         js["events"]["vehicle_events"].append(ve)
+    # signals of the unrelated connector that start exactly when signals / series values of the existing connectors start,
+    # listed before as well as after them (a look-ahead that stops at a foreign signal would miss its own events of that time)
+    xg = list(gmap.values())[0]
+    own = [sg for sg in js["events"]["grid_operator_signals"] if sg["grid_connector_id"] != xg]
+    times = [sg["start_time"] for sg in own]
+    start = datetime.datetime.fromisoformat(js["scenario"]["start_time"])
+    iv = datetime.timedelta(minutes=js["scenario"]["interval"])
+    times += [scen.iso(start + iv * k) for k in range(1, js["scenario"]["n_intervals"], 2)]
+    mirrored = [{"signal_time": js["scenario"]["start_time"], "start_time": t, "grid_connector_id": xg,
+                 "cost": {"type": "fixed", "value": rng.choice([0.1, 0.4])}} for t in times]
+    half = len(mirrored) // 2
+    js["events"]["grid_operator_signals"] = mirrored[:half] + js["events"]["grid_operator_signals"] + mirrored[half:]
     return js
 
 
